@@ -172,14 +172,14 @@ def _find_terminal_instruction(snapshot, ctls, start, end, rst_handler, ctl=None
         i_addr, size, max_count, op_id = next(decode(snapshot, address, address + 1, rst_handler))[:4]
         address += size
         if ctl is None:
-            for a in range(i_addr, address):
+            for a in range(i_addr, min(address, end)):
                 if a in ctls:
                     next_ctl = ctls[a]
                     del ctls[a]
             if ctls.get(address) == 'c':
                 break
         if op_id == END:
-            if address < 65536 and address not in ctls:
+            if address < end and address not in ctls:
                 ctls[address] = ctl or next_ctl
             break
     return address
